@@ -48,6 +48,10 @@ def gen_cases(tier, seed):
                 cfgd["newton"] = "Globalized"
         if rng.random() < 0.15:
             case["deriv_check"] = True
+        if rng.random() < 0.3:
+            case["obj_array"] = True   # objective values handed over as 0-d arrays (cached like everything else)
+            if rng.random() < 0.5:
+                cfgd["scaling"] = "none"
         cases.append(case)
     return cases
 
@@ -105,7 +109,8 @@ class SnapshotProblem(mon.ProxyProblem):
         return bad
 
     def obj(self, x):
-        return self.inner.obj(x)
+        v = self.inner.obj(x)
+        return self._out("obj", v) if isinstance(v, np.ndarray) else v
 
     def obj_grad(self, x):
         return self._out("obj_grad", self.inner.obj_grad(x))
@@ -128,7 +133,7 @@ def one_run(case, policy, freeze=False):
         rng2 = rng_for("y0", *case["gseed"])
         spec.y0 = rng2.normal(size=spec.m)
     inner = SpecProblem(spec, fmt=case["fmt"], dup=case.get("dup", 0) if policy in ("shared", "unshared") else False,
-                        policy=policy)
+                        policy=policy, obj_array=bool(case.get("obj_array")))
     snap = SnapshotProblem(inner, freeze=freeze)
     cfgd = dict(case["cfg"])
     weights = None
@@ -200,6 +205,7 @@ def run_case(case):
     bump("twin_policy_" + case["policy"])
     bump("shared_structure_arrays_checked", twin["nstruct"])
     bump("twin_runs_with_derivative_check", int(bool(case.get("deriv_check"))))
+    bump("twin_runs_with_array_valued_objective", int(bool(case.get("obj_array"))))
     bump("scaling_" + cn["scaling"])
     bump("fmt_" + case["fmt"])
     bump("cached_objects_handed_out_again", max(0, twin["snap"].handed - len(twin["snap"].snaps)))
@@ -256,7 +262,7 @@ def finalize(agg, tier):
                 "hand-over; non-trivial = twin pair compared and identical with no snapshot mismatch; distinct by "
                 "(spec seed, policy)",
         "floors": {"twin_runs": 300, "callback_results_snapshotted": 20000, "cached_objects_handed_out_again": 5000,
-                   "caller_owned_arrays_checked": 1500, "twin_policy_shared": 40, "twin_runs_with_derivative_check": 30, "shared_structure_arrays_checked": 100, "scaling_custom": 30, "scaling_GradJac": 30, "fmt_coo": 60,
+                   "caller_owned_arrays_checked": 1500, "twin_policy_shared": 40, "twin_runs_with_derivative_check": 30, "twin_runs_with_array_valued_objective": 60, "shared_structure_arrays_checked": 100, "scaling_custom": 30, "scaling_GradJac": 30, "fmt_coo": 60,
                    "fmt_csr": 60, "fmt_csc": 60},
         "assumptions": ["value = dense logical value (scipy may reorder indices of a matrix in place without changing it); "
                         "the frozen-buffer run is used only to locate the write for the witness, never as a verdict"],
